@@ -433,7 +433,15 @@ def _scan_flow_scalar_non_spaces(
                             start_mark,
                         )
                 code = int(stream.prefix(length), 16)
-                chunks.append(chr(code))
+                try:
+                    chunks.append(chr(code))
+                except (ValueError, OverflowError):
+                    raise TokenizeError(
+                        f"escape sequence {stream.prefix(length)!r} is not a valid unicode code point",
+                        stream.get_position(),
+                        "while scanning a double-quoted scalar",
+                        start_mark,
+                    ) from None
                 stream.forward(length)
             elif ch in _CHARS_NEWLINE:
                 _scan_line_break(stream)
